@@ -162,6 +162,15 @@ def r11_7(ctx, rep):
                % (prefix, W, G, L, suffix), where=where_p)
 
 
+def _subterms(e):
+    yield e
+    if isinstance(e, tuple):
+        for x in e:
+            if isinstance(x, (tuple, list)):
+                for y in (x if isinstance(x, list) else [x]):
+                    yield from _subterms(y)
+
+
 def r11_8(ctx, rep, only=None):
     """R11.8: the getters of Config are a table over its fields: a public getter named like a field reads that field and no other."""
     rep.rule("R11.8", "configuration table: every public Config getter that is named like a Config field reads exactly that field (and no "
@@ -204,6 +213,33 @@ def r11_8(ctx, rep, only=None):
                           "the getter `%s` reads %s instead of the field of its own name: the configured `%s` is ignored / another limit is "
                           "used in its place" % (nm, sorted(reads) or "no field", nm), where=where)
     rep.floor("R11.8", "Config getters named like a field", n, 4 if not only else len(only))
+    # (b) constructors: a field is initialised from the parameter of its own name, never from the parameter named like another field
+    n_ctor = 0
+    for b in ctx.facts.doc["bodies"]:
+        if b.get("impl_self") != "config::Config" or not b.get("pub"):
+            continue
+        aggs = [(bi, si, st) for bi, blk in enumerate(b["blocks"]) if not blk.get("cleanup") for si, st in enumerate(blk["stmts"])
+                if st["k"] == "assign" and st["rv"]["k"] == "agg" and st["rv"].get("adt") == "config::Config"]
+        if not aggs:
+            continue
+        gk = ctx.graph(b["key"])
+        pnames = {i: (b["locals"][i].get("name") or "") for i in range(1, b.get("argc", 0) + 1)}
+        for bi, si, st in aggs:
+            n_ctor += 1
+            for fn, fo in zip(st["rv"]["fnames"], st["rv"]["fields"]):
+                if only and fn not in only:
+                    continue
+                e = strip_ids(gk.prov_operand(gk.insts[0], fo))
+                src = sorted({pnames.get(x[1], "") for x in _subterms(e) if isinstance(x, tuple) and len(x) == 2 and x[0] == "arg"} - {""})
+                wrong = [p_ for p_ in src if p_ != fn and p_ in fields]
+                where = "%s:%s" % (b["file"], st.get("line", b["line"]))
+                if wrong:
+                    rep.violation("R11.8", "Config::%s|field:%s<=param:%s" % (b["key"].split("::")[-1], fn, ",".join(wrong)), "Config::%s" % b["key"].split("::")[-1],
+                                  "the constructor stores the parameter `%s` in the field `%s`: the user's setting lands under another name" % (wrong[0], fn),
+                                  where=where)
+                else:
+                    rep.ok("R11.8", "Config::%s: field %s" % (b["key"].split("::")[-1], fn), "<= %s" % (", ".join(src) or "default"), where=where, nontrivial=False)
+    rep.floor("R11.8", "Config constructors", n_ctor, 1)
 
 
 def run(ctx, rep):
